@@ -96,7 +96,14 @@ class Relational:
     """mix-in marker: the contract states a 2-safety property, decided by self-composition on the real function
     (DESIGN 2.6): the function is executed twice on inputs related by `relate`, `ensures_rel` relates the results"""
 
+    shared_symbols = False     # True: both runs use the same input symbols; the second run's inputs are given by
+                               # `second_run(cfg)` as functions of the first run's (no equalities needed)
+
     def relate(self, s1, s2):
+        return {}
+
+    def second_run(self, cfg):
+        """dotted heap path -> function(executor, first-run value) -> second-run value"""
         return {}
 
     def ensures_rel(self, s1, s2, r1, r2):
@@ -346,7 +353,7 @@ def _one_run(c, cfg_label, cfg, repo_src, registry, snapshot_root, prefix):
     ctx.current_contract = c
     ctx.snapshot_root = snapshot_root
     ctx.config = cfg
-    ctx.sym_prefix = prefix
+    ctx.sym_prefix = prefix if not getattr(c, "shared_symbols", False) else ""
     ctx.uninterpreted = dict(getattr(c, "uninterpreted", {}) or {})
     ctx.bounded = cfg.get("_size") is not None
     ctx.inline.update(getattr(c, "inline_callees", ()) or ())
@@ -354,9 +361,21 @@ def _one_run(c, cfg_label, cfg, repo_src, registry, snapshot_root, prefix):
     st = State()
     st.ex = ex
     fnode, module = c.load(ctx)
+    if prefix and getattr(c, "shared_symbols", False) and snapshot_root is not None:
+        from .snapshot import get_path
+        ctx.transform = {}
+        for path, fn in (c.second_run(cfg) or {}).items():
+            owner_path, _, attr = path.rpartition(".")
+            owner = get_path(snapshot_root, owner_path)
+            ctx.keepalive.append(owner)
+            ctx.transform[(id(owner), attr)] = fn
     env = {}
+    arg_tf = (c.second_run_args(cfg) or {}) if (prefix and getattr(c, "shared_symbols", False)
+                                                and hasattr(c, "second_run_args")) else {}
     for pname, spec in c.params.items():
         env[pname] = cfg[pname] if pname in cfg else make_value(ex, st, spec, pname)
+        if pname in arg_tf:
+            env[pname] = arg_tf[pname](ex, env[pname])
     c.setup(ex, st, cfg)
     env["$module"] = module
     env["$qualname"] = c.key.split("::")[-1]
